@@ -579,11 +579,17 @@ func runConfig(cfg *runCfg) error {
 	for _, c := range d.concurrentLoads(g) {
 		add(c)
 	}
+	for _, c := range d.concurrentRenders(g) {
+		add(c)
+	}
 	for _, c := range d.envCases(g, cfg.N/40+14) {
 		add(c)
 	}
 	// the other observations (formats, strict mode, flags, templates) are made on the Go side only
 	fstats := d.runFormats(g, cfg.N/4+8)
+
+	// spread the heavy special cases (whole server sections, traces) evenly over the shards; deterministic in the seed
+	g.R.Shuffle(len(cases), func(i, j int) { cases[i], cases[j] = cases[j], cases[i] })
 
 	cf := &hx.CaseFile{
 		Imports: "From FRP Require Import Corr.C18.\nOpen Scope Z_scope.\n",
@@ -602,6 +608,7 @@ func runConfig(cfg *runCfg) error {
 			"Definition NSTRICTREJ := Eval vm_compute in (sum_Z load_trace_strict_rejections cases : Z).\nPrint NSTRICTREJ.\n" +
 			"Definition NSECTIONREJ := Eval vm_compute in (count_if is_section_rejected cases : Z).\nPrint NSECTIONREJ.\n" +
 			"Definition NSECTIONACC := Eval vm_compute in (count_if is_section_accepted cases : Z).\nPrint NSECTIONACC.\n" +
+			"Definition NRENDERTRACE := Eval vm_compute in (sum_Z render_trace_len cases : Z).\nPrint NRENDERTRACE.\n" +
 			"Definition NTLSFLAGON := Eval vm_compute in (count_if is_tls_flag_on cases : Z).\nPrint NTLSFLAGON.\n",
 	}
 	if err := cf.Write(cfg.Out); err != nil {
